@@ -339,6 +339,10 @@ def summarise(ex, st, r):
         out['err'] = last_error(ex, cz)
         out['err_cleared'] = last_error(ex, cz) is None
         # heap verdicts
+        if ret is not None and st['rt'] == '*const c_char' and (esc is None or esc.kind != 'CString'):
+            mem.append('dangling: the returned string is not an allocation released with CString::into_raw (the caller will free it)')
+        if ret is not None and st['rt'] in ('Box<Value>', 'Option<Box<Value>>', 'Option<Box<Filter>>') and (esc is None or esc.kind != 'Box'):
+            mem.append('dangling: the returned handle is not a Box allocation')
         destroy = st['fn'] in ('haystack_value_destroy', 'haystack_string_destroy')
         for a in heap.allocs:
             if a.origin and a.origin.startswith('pre'):
